@@ -80,3 +80,39 @@ def scoped_ignore(ctx):
         warnings.simplefilter('ignore')
         warnings.warn('hidden', UserWarning)
     return None
+
+
+@op('library_io_call')
+def library_io_call(ctx, kind, seed=0):
+    """Other library calls of the same session that manipulate warning
+    filters internally (hp.load of a TIFF uses a scoped 'ignore'), including
+    ones that FAIL part-way: good | noname (NoMetadata) | truncated (OSError)
+    | yaml (plain object round trip)."""
+    import os
+    import holopy as hp
+    import yaml
+    from PIL import Image
+    from PIL.TiffImagePlugin import ImageFileDirectory_v2 as ifd2
+    from holopy.core.metadata import data_grid
+    rs = np.random.RandomState(seed)
+    path = os.path.join(ctx.root, 'lib_%s_%d.tif' % (kind, ctx.opid))
+    if kind == 'yaml':
+        from holopy.scattering import Sphere
+        p2 = path[:-4] + '.yaml'
+        hp.save(p2, Sphere(n=1.5, r=0.5, center=(1, 2, 3)))
+        return type(hp.load(p2)).__name__
+    if kind == 'good':
+        img = data_grid(rs.uniform(0.5, 2, (5, 6)), spacing=0.1,
+                        medium_index=1.33, illum_wavelen=0.66,
+                        illum_polarization=(1, 0))
+        hp.save(path, img)
+        return list(hp.load(path).shape)
+    arr = rs.randint(0, 255, size=(5, 6)).astype('uint8')
+    info = ifd2()
+    info[270] = yaml.dump({'spacing': [0.1, 0.1]}, default_flow_style=True)
+    Image.fromarray(arr).save(path, tiffinfo=info)
+    if kind == 'truncated':
+        data = open(path, 'rb').read()
+        with open(path, 'wb') as f:
+            f.write(data[:len(data) // 2])
+    return list(hp.load(path).shape)
